@@ -177,6 +177,18 @@ def apply(s, model, op, cls):
         bad = invariant(r)
         if bad:
             raise Mismatch('invariant', 'result of %s: %s' % (name, bad))
+        # the result is a set of its own: changing it afterwards leaves both operands as they were
+        marker = ('marker', len(before))
+        r.add(marker)
+        if list(s) != before or list(other) != list(op[1]):
+            raise Mismatch('algebra/result-aliases-operand', 'adding to the result of %r %s %r changed an operand'
+                           % (model, name, op[1]))
+        r.discard(marker)
+        if r:
+            r.pop()
+            if list(s) != before or list(other) != list(op[1]):
+                raise Mismatch('algebra/result-aliases-operand', 'popping from the result of %r %s %r changed an '
+                               'operand' % (model, name, op[1]))
     elif name == 'iterrm':
         visited = []
         k = len(op[1])
